@@ -512,3 +512,23 @@ Print Assumptions c10_start_close_no_underflow.
 Theorem c10_exec_full_same : forall fx tcp ms, xs (rx (exec_full fx tcp ms)) = exec fx tcp ms.
 Proof. exact exec_full_xs. Qed.
 Print Assumptions c10_exec_full_same.
+
+(* e91db58 (a TCP Send that fails closes the connection): in the router model a failed Send
+   leaves its connection closed on this side; in the Send/Stop model the write deadline of a
+   blocked write ends the Send with an error, frees sendMutex and closes the socket, which
+   the handler then notices *)
+Theorem c10_failed_send_closes : forall fx s t p c r s',
+  nth_error (senders s) t = Some (NSend p c r) -> step fx s (ASendFail t) = Some s' ->
+  exists k', nth_error (conns s') c = Some k' /\ lopen k' = false.
+Proof. exact failed_send_closes. Qed.
+Print Assumptions c10_failed_send_closes.
+
+Theorem c10_send_close_deadline : forall acts s i,
+  wrun false winit acts = Some s -> nth_error (writers s) i = Some WWrite ->
+  sock s = true -> stalled s = true ->
+  exists s', wstep false s (WDeadline i) = Some s' /\
+             sock s' = false /\ sendmu s' = false /\
+             nth_error (writers s') i = Some (WDone Err) /\
+             (reader s' = RReading -> exists s'', wstep false s' RdErr = Some s'').
+Proof. exact write_deadline_closes. Qed.
+Print Assumptions c10_send_close_deadline.
